@@ -851,7 +851,11 @@ fn check_shape(req: &Req, ent: &EntSpec, obs: &ServeObs, m: &Model, shape: &Shap
     let fault_props: &[&'static str] = &["C07"];
     match (&matched, fa) {
         (Match::Mismatch(e), _) => {
-            let props: Vec<&'static str> = if fa == Fate::Clean { vec![owner_bytes] } else { vec![owner_bytes, "C07"] };
+            // a multipart body that is not "exactly those ranges in request order" also breaks C03
+            let mut props: Vec<&'static str> = if fa == Fate::Clean { vec![owner_bytes] } else { vec![owner_bytes, "C07"] };
+            if matches!(shape, Shape::Multi(_)) {
+                props.push("C03");
+            }
             out.push(f(&props, "body-bytes", format!("body bytes wrong: {e}")));
         }
         (Match::Extra { extra }, _) => {
